@@ -11,5 +11,8 @@ let handle (toks : Stdlib.String.t list) : Stdlib.String.t =
       (match int_of_n c with 0 -> "need 0" | 1 -> Printf.sprintf "got %d" (int_of_nat n) | 2 -> Printf.sprintf "bad %d" (int_of_nat n) | 3 -> "frameerr 0" | _ -> "panic 0")
   | ["vecrep"; m; h; k] -> show_code (x_vecrep (mode_of m) (bytes_of_hex h) (nat_of_int (int_of_string k)))
   | ["settext"; m; h; i; t] -> show_code (x_settext (mode_of m) (bytes_of_hex h) (nat_of_int (int_of_string i)) (bytes_of_hex t))
+  | ["tread"; h] -> (match x_tread (bytes_of_hex h) with Some c -> Printf.sprintf "T %s %d" (hex_of_bytes c) (int_of_n (x_tflags (bytes_of_hex h))) | None -> "E")
+  | ["rldec"; b] -> let (t, n) = x_rldec (n_of_int (int_of_string b)) in Printf.sprintf "%d %d" (int_of_n t) (int_of_n n)
+  | ["rlenc"; t; n] -> string_of_int (int_of_n (x_rlenc (n_of_int (int_of_string t)) (n_of_int (int_of_string n))))
   | _ -> "?bad-op"
 let () = main handle
